@@ -986,8 +986,15 @@ class ExpectSpec(Spec):
         rng = ctx.rng('S')
         return [self.gen_case(rng) for _ in range(sizes(ctx, 1200, 40000) * (3 if boost else 1))] + self.curated()
 
+    CUR = []
+
     def curated(self):
-        return []
+        out = []
+        for src, mode, exp, kind in self.CUR:
+            c = H([call(src, safeMode=mode, reset=True, cb=True)])
+            c['meta'] = {'expect': exp, 'kind': kind}
+            out.append(c)
+        return out
 
     def oracle(self, ctx, case, impl, variants=()):
         if not all_ok(impl):
@@ -1012,6 +1019,25 @@ class C07(ExpectSpec):
             'depth 3, the replacement forms with URL/caption words) in modes 0,1,4,9; expected HTML built with the AST; '
             'non-trivial = contains a quote or replacement')
     cls_prefix = 'C07'
+    CUR = [('*a***', 0, '<p><em>a**</em></p>', 'surplus-delimiters'), ('`make```', 1, '<p><code>make``</code></p>', 'surplus-delimiters'),
+           ('x **b**** y', 0, '<p>x <strong>b**</strong> y</p>', 'surplus-delimiters'), ('~~gone~~~~', 0, '<p><del>gone~~</del></p>', 'surplus-delimiters'),
+           ('_**b****_', 0, '<p><em><strong>b**</strong></em></p>', 'surplus-delimiters'),
+           ('[a](b)[c](d)', 0, '<p><a href="b">a</a><a href="d">c</a></p>', 'adjacent-links'),
+           ('([a](b))', 1, '<p>(<a href="b">a</a>)</p>', 'adjacent-links'),
+           ('(see [c](http://x.y/z).)', 0, '<p>(see <a href="http://x.y/z">c</a>.)</p>', 'adjacent-links'),
+           ('^[a](b)^[c](d)', 0, '<p><a href="b" target="_blank">a</a><a href="d" target="_blank">c</a></p>', 'adjacent-links'),
+           ('![a](b)![c](d)', 0, '<p><img src="b" alt="a"><img src="d" alt="c"></p>', 'adjacent-links'),
+           ('<a.b|x><c.d|y>', 0, '<p><a href="a.b">x</a><a href="c.d">y</a></p>', 'adjacent-links'),
+           ('<j@k.lm><n@o.pq>', 0, '<p><a href="mailto:j@k.lm">j@k.lm</a><a href="mailto:n@o.pq">n@o.pq</a></p>', 'adjacent-links'),
+           ('a_b_c x_y', 0, '<p>a_b_c x_y</p>', 'underscore-in-word'), ('line \\\nbreak', 0, '<p>line<br>\nbreak</p>', 'line-break'),
+           ('&amp;&lt;&#160;', 0, '<p>&amp;&lt;&#160;</p>', 'entities'), ('a & b < c > d', 3, '<p>a &amp; b &lt; c &gt; d</p>', 'specials')]
+
+    def streams(self, ctx):
+        rng = ctx.rng('G')
+        rs = ctx.rng('T')
+        soup = [H([call('Lead ' + gen.inline_text(rs, rs.randint(2, 10)), safeMode=rs.choice([0, 1]), reset=True, cb=True)])
+                for _ in range(sizes(ctx, 600, 25000))]
+        return [corpus_stream(ctx), ('G', [strip_case(self.gen_case(rng)) for _ in range(sizes(ctx, 500, 25000))]), ('T', soup)]
 
     def gen_case(self, rng):
         mode = rng.choice([0, 0, 1, 4, 9, 12])
@@ -1047,6 +1073,13 @@ class C10(ExpectSpec):
             'block, optional single blank lines between items, followed by a paragraph or header; expected HTML from the tree; '
             'non-trivial = nesting depth >= 2 or an attached block')
     cls_prefix = 'C10'
+    CUR = [('- a\n``\nc\n``\n\n  second\n\n- b', 0, '<ul><li>a<pre><code>c</code></pre></li></ul><pre><code>second</code></pre><ul><li>b</li></ul>', 'second-attached-block'),
+           ('- a\n\n  code1\n\n\n  code2', 0, '<ul><li>a<pre><code>code1</code></pre></li></ul><pre><code>code2</code></pre>', 'second-attached-block'),
+           ('- a\n--\nc\n--\n\n> q2\n\n- b', 1, '<ul><li>a<pre><code>c</code></pre></li></ul><blockquote><p> q2</p></blockquote><ul><li>b</li></ul>', 'second-attached-block'),
+           ('.... p\n- a\n.... q', 0, '<ol><li>p<ul><li>a</li></ul></li><li>q</li></ol>', 'deepest-markers'),
+           ('**** p\n:::: t\na:::: b', 0, None, 'deepest-markers'),
+           ('- a\n\n\n- b', 0, '<ul><li>a</li></ul><ul><li>b</li></ul>', 'two-blank-lines-end'),
+           ('- a\n\n- b', 0, '<ul><li>a</li><li>b</li></ul>', 'one-blank-line-continues')]
 
     def gen_case(self, rng):
         src, html = G.list_document(rng)
@@ -1080,11 +1113,35 @@ class C11(Spec):
         rng = ctx.rng('G')
         return [corpus_stream(ctx), ('G', [strip_case(dict(self.gen_case(rng), variants=[])) for _ in range(sizes(ctx, 500, 25000))])]
 
+    CUR = [("{m}='<div>$$1:*dflt* & co$</div>'\n{m|}", '<div><em>dflt</em> &amp; co</div>', 'spans-parameter'),
+           ("{m}='<div>$$1</div>'\n{m|*a* <}", '<div><em>a</em> &lt;</div>', 'spans-parameter'),
+           ("{m}='<div>$1:*d*$ $2</div>'\n{m||x}", '<div>*d* x</div>', 'plain-parameter'),
+           ("{x}=''\n{x?}='non-empty'\n{x}y", '<p>y</p>', 'existential-over-blank'),
+           ("{x?}='first'\n{x?}='second'\n{x}", '<p>first</p>', 'existential'),
+           ("{--header-ids?}='yes'\n# T", '<h1>T</h1>', 'existential-over-blank'),
+           ("{m}='v1'\n{n}='{m}'\n{m}='v2'\n{n} {m}", '<p>v1 v2</p>', 'value-fixed-at-definition'),
+           ("{m}='$1|$2|$3'\n{m|a|b}", '<p>a|b|</p>', 'missing-parameter'),
+           ("{m}='a'\nkeep {m=a} this\ndrop {m=b} this\nkeep {m!b} too\ndrop {m!a} too", '<p>keep  this\nkeep  too</p>', 'inclusion'),
+           ("{m}='ab'\nx {m=a}y", '<p></p>', 'inclusion-full-match'), ("\\{m} {u|x}", '<p>{m} {u|x}</p>', 'escaped-undefined')]
+
     def search_cases(self, ctx, boost):
         rng = ctx.rng('S')
-        return [self.gen_case(rng) for _ in range(sizes(ctx, 1200, 40000) * (3 if boost else 1))]
+        cur = []
+        for src, exp, kind in self.CUR:
+            c = H([call(src, safeMode=0, reset=True, cb=True)])
+            c['meta'] = {'expect': exp, 'kind': kind, 'defined': []}
+            cur.append(c)
+        return cur + [self.gen_case(rng) for _ in range(sizes(ctx, 1200, 40000) * (3 if boost else 1))]
 
     def oracle(self, ctx, case, impl, variants=()):
+        if case.get('meta', {}).get('expect') is not None:
+            if not all_ok(impl):
+                return None
+            got = impl['calls'][0]['html']
+            if O.squeeze(got) != O.squeeze(case['meta']['expect']):
+                return ('C11/' + case['meta']['kind'], 'source %r renders %r, the statement gives %r'
+                        % (case['calls'][0]['src'], got[:200], case['meta']['expect']))
+            return None
         if not variants or not all_ok(impl) or not all_ok(variants[0]):
             return None
         a = impl['calls'][0]
@@ -1125,6 +1182,8 @@ class C09(ExpectSpec):
                 l = re.sub('[\x00-\x02]', ' ', l)
                 if l == fence:
                     l = l + 'x'
+                if rng.random() < 0.08:
+                    l = fence + rng.choice([' ', '  ', '\t', ' x'])     # not equal to the closing fence
                 lines.append(l)
             src = fence + '\n' + '\n'.join(lines) + '\n' + fence
             exp = '<pre><code>' + O.escape('\n'.join(lines)) + '</code></pre>'
@@ -1276,7 +1335,7 @@ class C17(Spec):
               ('image', '![alt](i.png)'), ('image', '<image:i.png|alt>'), ('image', '<image:i.png>'), ('email', '<j@k.lm>'),
               ('email', '<j@k.lm|Joe>'), ('url', 'http://foo.com/x'), ('tag', '<b>'), ('tag', '</b>'), ('tag', '<!-- c -->'),
               ('entity', '&amp;'), ('entity', '&#160;'), ('macro', '{mac}'), ('macro', '{mac|p}'), ('anchor', '<<#anc>>')]
-    LINE = [('header', '# Title'), ('header', '== Sub'), ('listitem', '- item'), ('listitem', '. numbered'), ('listitem', 'term:: def'),
+    LINE = [('header', '# Title'), ('header', '== Sub'), ('listitem', '- item'), ('listitem', '. numbered'), ('listitem', 'term:: def'), ('listitem', '- term:: def'), ('listitem', '1. step:: note'), ('listitem', '* star:: x'),
             ('comment', '// comment'), ('attributes', '.cls #id'), ('attributes', '.+skip'), ('macrodef', "{mac}='v2'"),
             ('quotedef', "= = 'A|B'"), ('repldef', "/foo/='bar'"), ('blockdef', "|code|='+macros'"), ('option', ".safeMode='1'"),
             ('blockimage', '<image:i.png>'), ('blockanchor', '<<#anc>>'), ('delimiter', '..'), ('delimiter', '""'), ('delimiter', '``'),
@@ -1340,8 +1399,13 @@ class C17(Spec):
             kinds = md['kinds']
             kind = kinds[0] if len(kinds) == 1 else 'mixed-inline'
             srcx = case['calls'][0]['src']
-            if 'quote' in kinds and re.search(r'\\(\*\*|__)[^*_]+(\*\*|__).*\\[*_][^*_]', srcx):
-                kind = 'escaped-double-then-single-quote'
+            esc_delims = re.findall(r'\\(\*\*|\*|__|_|``|`|~~)', srcx)
+            chars = [d[0] for d in esc_delims]
+            if len(chars) != len(set(chars)) or (len(chars) >= 1 and re.search(r'(?m)^[*~]', srcx.split('\n\n', 1)[-1])
+                                                 and srcx.split('\n\n', 1)[-1][0] in chars):
+                # only the opening delimiter of an escaped quote is escaped: its closing delimiter can pair with
+                # another (escaped or enclosing) quote that uses the same character
+                kind = 'escaped-quotes-sharing-delimiter'
             # an escaped element that opens the line is first seen by the line rules
             if re.search(r'(?m)^\\<image:', srcx) and '<img' in got:
                 return ('C17/blockimage:<image:i.png', 'source %r renders %r' % (srcx[:200], got[:200]))
@@ -1483,7 +1547,7 @@ class C02(Spec):
                 out.append(c)
         # hand-made pumps of adjacent quantifiers
         N = 400 if ctx.quick else 1500
-        for src, tag in [('.a' + ' ' * N + '!', 'attr-blanks'), ('# x' + ' ' * N * 4 + 'y', 'header-blanks'),
+        for src, tag in [('.a' + ' ' * N + '!', 'attr-blanks'), ('# x' + ' ' * N * 12 + 'y', 'header-blanks'), ('## a' + ' ' * N * 10 + 'b ##', 'header-blanks-close'),
                          ('<' * (N // 2) + 'a' + '@b|x' * (N // 4), 'email-caption'), ('<a|' * N, 'url-caption'),
                          ('[' * N, 'brackets'), ('*' * N + ' x', 'stars'), ('`' * N, 'ticks'), ('http://' + 'a/' * N, 'url'),
                          ('&' + 'a' * N * 4, 'entity'), ('<!--' + '-' * N * 2, 'comment'), ('- ' + 'a:' * N, 'dl-colons'),
